@@ -36,6 +36,20 @@ def _alarm(_sig, _frm):
     raise CaseTimeout()
 
 
+def arm(cpu_seconds):
+    """budget in CPU seconds of this process (ITIMER_PROF: independent of how loaded the machine is), with a
+    wall-clock backstop 40 times as long"""
+    signal.signal(signal.SIGPROF, _alarm)
+    signal.signal(signal.SIGALRM, _alarm)
+    signal.setitimer(signal.ITIMER_PROF, float(cpu_seconds))
+    signal.alarm(int(cpu_seconds * 40))
+
+
+def disarm():
+    signal.setitimer(signal.ITIMER_PROF, 0)
+    signal.alarm(0)
+
+
 # ---------------------------------------------------------------------------
 # structural summary of a lookup list (the state of specs/OTLRepack.tla)
 # ---------------------------------------------------------------------------
@@ -665,12 +679,11 @@ def run_case(arg):
 
     rng = random.Random("%s-%d" % (case["label"], seed))
     logging.disable(logging.CRITICAL)
-    signal.signal(signal.SIGALRM, _alarm)
     result = {"case": case, "e2e": None, "loops": [], "skip": None}
     rec = Recorder()
     try:
         # ---- the pristine in-memory tables (level 0) --------------------------------
-        signal.alarm(case.get("budget", 60) * 3)
+        arm(case.get("budget", 60) * 3)
         try:
             pristine = build_font(case, 0)
         except CaseTimeout:
@@ -694,7 +707,7 @@ def run_case(arg):
             for mode, level in plan:
                 run = {"mode": mode, "lvl": level, "err": "", "bytes": None}
                 n0 = len(rec.traces)
-                signal.alarm(case.get("budget", 60))
+                arm(case.get("budget", 60))
                 try:
                     font = build_font(case, level)
                     font.cfg[REPACK_KEY] = MODES[mode]
@@ -707,7 +720,7 @@ def run_case(arg):
                 except Exception as e:
                     run["err"] = type(e).__name__
                 finally:
-                    signal.alarm(0)
+                    disarm()
                     rec.cur = None
                 for tr in rec.traces[n0:]:
                     tr["label"] = case["label"]
@@ -719,7 +732,7 @@ def run_case(arg):
         finally:
             rec.uninstall()
         result["loops"] = [tr for r in runs for tr in r["loops"]]
-        signal.alarm(case.get("budget", 60) * 3)
+        arm(case.get("budget", 60) * 3)
         # ---- reopen the results ---------------------------------------------------------
         for r in runs:
             r["res"] = None
@@ -818,5 +831,5 @@ def run_case(arg):
         result["skip"] = "harness budget exceeded outside compile"
         return result
     finally:
-        signal.alarm(0)
+        disarm()
         logging.disable(logging.NOTSET)
